@@ -91,6 +91,22 @@ func (p *tcpProxy) Cut() {
 func (p *tcpProxy) Heal()  { p.mu.Lock(); p.cut = false; p.mu.Unlock() }
 func (p *tcpProxy) Close() { p.Cut(); _ = p.ln.Close() }
 
+// startNode starts a node; on an overloaded machine the 15 s the library allows for the control
+// socket may not be enough: as long as the process lives, keep waiting.
+func startNode(n *Node) error {
+	err := n.Start()
+	if err == nil {
+		return nil
+	}
+	for t0 := time.Now(); strings.Contains(err.Error(), "did not come up") && n.Alive() && time.Since(t0) < 90*time.Second; time.Sleep(100 * time.Millisecond) {
+		if c, derr := net.DialTimeout("unix", n.Sock, time.Second); derr == nil {
+			c.Close()
+			return nil
+		}
+	}
+	return err
+}
+
 func freePort() int {
 	ln, err := net.Listen("tcp", "127.0.0.1:0")
 	Must(err)
@@ -207,7 +223,7 @@ func runRemoteScenario(c *Ctx, sh *shared, dir string, sc remoteScenario) {
 	b := NewNode(c.Bin, idB, dirB, fmt.Sprintf("- tcp-listener:\n    port: %d\n", portB)+workCommandYAML(dirB))
 	logB := filepath.Join(dirB, "status.log")
 	b.Env = []string{"VERIF_STATUS_LOG=" + logB}
-	if err := b.Start(); err != nil {
+	if err := startNode(b); err != nil {
 		fail("node B does not start: "+err.Error(), "harness-start")
 		return
 	}
@@ -217,7 +233,7 @@ func runRemoteScenario(c *Ctx, sh *shared, dir string, sc remoteScenario) {
 	if sc.Relay {
 		portR := freePort()
 		relay = NewNode(c.Bin, idR, filepath.Join(dir, "r"), fmt.Sprintf("- tcp-listener:\n    port: %d\n- tcp-peer:\n    address: 127.0.0.1:%d\n", portR, portB))
-		if err := relay.Start(); err != nil {
+		if err := startNode(relay); err != nil {
 			fail("relay does not start: "+err.Error(), "harness-start")
 			return
 		}
@@ -234,7 +250,7 @@ func runRemoteScenario(c *Ctx, sh *shared, dir string, sc remoteScenario) {
 	a := NewNode(c.Bin, idA, dirA, fmt.Sprintf("- tcp-peer:\n    address: 127.0.0.1:%d\n", px.Port()))
 	logA := filepath.Join(dirA, "status.log")
 	a.Env = []string{"VERIF_STATUS_LOG=" + logA}
-	if err := a.Start(); err != nil {
+	if err := startNode(a); err != nil {
 		fail("node A does not start: "+err.Error(), "harness-start")
 		return
 	}
@@ -288,11 +304,11 @@ func runRemoteScenario(c *Ctx, sh *shared, dir string, sc remoteScenario) {
 			if cs.Remote {
 				b.Kill()
 				time.Sleep(cs.For)
-				_ = b.Start()
+				_ = startNode(b)
 			} else if cs.Relay && relay != nil {
 				relay.Kill()
 				time.Sleep(cs.For)
-				_ = relay.Start()
+				_ = startNode(relay)
 			} else {
 				px.Cut()
 				time.Sleep(cs.For)
